@@ -158,6 +158,8 @@ func selfTest() (failed []string, n int) {
 	expect("facts / len(b) != 4 guard", convOK("LenOK"), true)
 	expect("facts / len(b) == 0 guard is too weak", convOK("LenBad"), false)
 	expect("facts / validator ensures-summary", convOK("LenViaValidatorOK"), true)
+	expect("facts / bool validator `a && b`", convOK("LenViaBoolExprOK"), true)
+	expect("facts / bool validator `a || b` proves nothing", convOK("LenViaWeakBoolBad"), false)
 	nilOK := func(name string) bool {
 		f := fnOf(name)
 		ok := true
